@@ -68,6 +68,7 @@ verus! {
 
 //@ include prelude/system_seq.rs
 //@ include prelude/ticket_stub.rs
+//@ include prelude/ticket_stub_fs.rs
 
 // ---------- spec vocabulary of unit D ----------
 // REM_OK: a remembered file state is *valid*: its hash is the hash of the bytes its timestamp stands for
